@@ -293,6 +293,9 @@ func populateStruct(originalVal reflect.Value, vs []FieldValueTuple, inputIndex 
 		return inputIndex, anyChildSet, nil
 	}
 	val := vs[inputIndex].Value
+	if !val.Type().AssignableTo(originalVal.Type()) {
+		return inputIndex, false, fmt.Errorf("error unmangling. Expected type %s. Actual type %s", originalVal.Type(), val.Type())
+	}
 	if !isNil(val) {
 		originalVal.Set(val)
 		anyChildSet = true
